@@ -26,7 +26,56 @@ struct TapeBuf : std::streambuf {
 };
 
 // inputs: sample files by name, synthesised files as "synth:<type>:<ver>:<mode>"
+// models with features none of the sample files has, made through the public API and written by the library
+std::string builtBytes(const std::string& what) {
+	NifFile nif;
+	if (what == "fo4-subsegments") {
+		if (nif.Load(samplePath("TestNifFile_Skinned_FO4.nif")) != 0) return "";
+		for (auto sh : nif.GetShapes()) {
+			auto sit = dynamic_cast<BSSubIndexTriShape*>(sh);
+			if (!sit) continue;
+			uint32_t nt = sit->GetNumTriangles();
+			NifSegmentationInfo inf;
+			inf.segs.resize(3);
+			inf.segs[0].partID = 0;
+			inf.segs[0].subs.resize(2);
+			inf.segs[0].subs[0].partID = 1;
+			inf.segs[0].subs[0].userSlotID = 30;
+			inf.segs[0].subs[0].material = 0x12345;
+			inf.segs[0].subs[1].partID = 2;
+			inf.segs[1].partID = 3; // stays empty
+			inf.segs[2].partID = 4;
+			inf.ssfFile = "meshes\\c16\\built.ssf";
+			std::vector<int> tp(nt);
+			for (uint32_t i = 0; i < nt; i++) tp[i] = (i % 4 == 3) ? 4 : int(i % 4);
+			NifFile::SetShapeSegments(sit, inf, tp);
+		}
+	}
+	else if (what == "le-two-partitions") {
+		if (nif.Load(samplePath("TestNifFile_Optimize_LE_to_SE.nif")) != 0) return "";
+		for (auto sh : nif.GetShapes()) {
+			NiVector<BSDismemberSkinInstance::PartitionInfo> pinfo;
+			std::vector<int> tp;
+			if (!nif.GetShapePartitions(sh, pinfo, tp) || pinfo.empty()) continue;
+			BSDismemberSkinInstance::PartitionInfo pi;
+			pi.partID = 38;
+			pi.flags = PF_EDITOR_VISIBLE;
+			pinfo.push_back(pi);
+			for (size_t i = 0; i < tp.size(); i++) tp[i] = int(i % 2);
+			nif.SetShapePartitions(sh, pinfo, tp);
+			nif.UpdateSkinPartitions(sh);
+		}
+	}
+	else
+		return "";
+	std::string f0 = saveToString(nif, true, true);
+	NifFile re;
+	if (loadFromString(re, f0) != 0) return "";
+	return saveToString(re, false, false);
+}
+
 std::string inputBytes(const std::string& name) {
+	if (name.compare(0, 6, "built:") == 0) return builtBytes(name.substr(6));
 	if (name.compare(0, 6, "synth:") != 0) return readFile(samplePath(name));
 	std::stringstream ss(name.substr(6));
 	std::string type, ver, mode;
@@ -46,6 +95,8 @@ int cmdTapes(int argc, char** argv) {
 	std::string outPath = argv[1];
 	size_t stride = strtoul(argv[2], nullptr, 10);
 	std::vector<std::string> names = sampleFiles();
+	names.push_back("built:fo4-subsegments");
+	names.push_back("built:le-two-partitions");
 	auto types = allBlockTypes();
 	const char* vers[] = {"OB", "FO3", "SK", "SSE", "FO4", "FO76", "SF"};
 	uint64_t seed = seedFromEnv();
